@@ -318,7 +318,9 @@ impl Runtime {
                     return Event::Errors(Arc::clone(&self.listing.direct_errors));
                 }
             }
-            State::Inkey | State::RuntimeError(_) => {}
+            // Still waiting for a key (e.g. resumed by CONT after an interrupt): ask again.
+            State::Inkey => return Event::Inkey,
+            State::RuntimeError(_) => {}
         }
         if let State::RuntimeError(_) = self.state {
             if self.print_col > 0 {
